@@ -5,7 +5,8 @@
    Ports/DecProofs.v, Ports/DispatchWalk.v. *)
 From Coq Require Import List ZArith Bool.
 From RtoscV Require Import Match.PatSpec Match.MatchModel Ports.NameModel Ports.PathModel Ports.WalkModel
-     Ports.WalkProofs Ports.WalkRegress Ports.DecProofs Ports.EnumProofs.
+     Ports.WalkProofs Ports.WalkRegress Ports.DecProofs Ports.EnumProofs
+     Ports.DispatchModel Ports.DispatchProofs Ports.TreeProofs Ports.DispatchWalk.
 Import ListNotations.
 Local Open Scope Z_scope.
 
@@ -113,3 +114,40 @@ Proof. exact ex_plain_ok. Qed.
 Theorem C09_enumerates_nonvacuous : Forall sport_wf ex_wf /\ length (spec_addrs ex_wf) = 138%nat /\
   map pname (map render_port ex_wf) = [[97;35;51;47;98;35;50;47;99;47]].
 Proof. exact ex_wf_ok. Qed.
+
+(* Every (port, address) the walk reports, sent as a message with a type
+   string the port admits, is dispatched to that very port: the callbacks
+   invoked are exactly the chain of ports along the reported index path - one
+   per level, objects handed down by the parents, the last one the reported
+   leaf - with and without a location buffer (hashed or linear lookup:
+   tree_ok covers both), and matches = 1.  Composition of C09_enumerates with
+   C05's matcher (path_complete) and C04's tree dispatch
+   (C04_exactly_one_leaf).  Side conditions: names of the shape the macros
+   produce ([dok]: sub-tree ports one component "text/" or "text#N/", N < 10^9,
+   7-bit literal text without : { * #, no two '#N' adjacent, a leaf name does
+   not end in '/'), and pairwise non-overlapping sibling names
+   ([table_disjoint]: no message is matched by two ports of one table - the
+   reading C04 uses).  hp / tid: any result of the perfect-hash search and any
+   table identities. *)
+Theorem C09_dispatchable : forall hp tid root id a ty o,
+  Forall sport_wf root -> Forall dok root -> table_disjoint root ->
+  tree_ok (to_tree hp tid root) ->
+  forall out b, walk None (map render_port root) [] = WOk out b ->
+  In (id, a) out -> leaf_admits root id ty ->
+  let t := to_tree hp tid root in
+  rev (log (dispatch t a ty true o)) = chain id t (strip a) ty o (Some [47]) /\
+  rev (log (dispatch t a ty false o)) = chain id t (strip a) ty o None /\
+  matches (dispatch t a ty true o) = 1 /\
+  leaf_count (chain id t (strip a) ty o (Some [47])) = 1 /\
+  length (chain id t (strip a) ty o (Some [47])) = length id.
+Proof. exact walk_dispatchable. Qed.
+
+(* the hypotheses hold for "a#12/" -> { "c#2/x:i" } and the reported pair
+   ([0;0], "/a11/c1/x") with type string "i" (24 pairs in all) *)
+Theorem C09_dispatchable_nonvacuous :
+  Forall sport_wf ex_d /\ Forall dok ex_d /\ table_disjoint ex_d /\
+  tree_ok (to_tree no_hash_search one_id ex_d) /\
+  leaf_admits ex_d [0%nat; 0%nat] [105] /\
+  (exists out b, walk None (map render_port ex_d) [] = WOk out b /\
+                 In ([0%nat; 0%nat], [47; 97; 49; 49; 47; 99; 49; 47; 120]) out /\ length out = 24%nat).
+Proof. exact ex_d_ok. Qed.
